@@ -381,7 +381,8 @@ class FilterAnalyzer(desc.ResetMixin):
 
         sig = ts.TimeSeries(data=self._ts.data,
                             sampling_rate=self._ts.sampling_rate,
-                            t0=self._ts.t0)
+                            t0=self._ts.t0,
+                            time_unit=self._ts.time_unit)
 
         # Lowpass:
         if ub_frac < 1:
